@@ -1,8 +1,7 @@
 SPECIFICATION Spec
+POSTCONDITION PostCond
 CONSTANTS
   Seed = 0
   Multi = FALSE
-  Wide = FALSE
-  Quick = FALSE
-INVARIANT LabelIndependent
+  Wide = TRUE
 CHECK_DEADLOCK FALSE
